@@ -106,9 +106,9 @@ DoubleFitsReal(v) == v[2] = 2047 \/ v[2] <= 1023 + 127
 ValidCp(c) == c < 0 \/ (c <= 1114111 /\ ~(c >= 55296 /\ c <= 57343))
 Utf8One(c) ==
     IF c < 128 THEN <<c>>                                   \* (a blob of ASCII characters encodes as itself)
-    ELSE IF c < 2048 THEN <<192 + c \div 64, 128 + c % 64>>
-    ELSE IF c < 65536 THEN <<224 + c \div 4096, 128 + (c \div 64) % 64, 128 + c % 64>>
-    ELSE <<240 + c \div 262144, 128 + (c \div 4096) % 64, 128 + (c \div 64) % 64, 128 + c % 64>>
+    ELSE IF c < 2048 THEN <<192 + c \div 64, 128 + (c % 64)>>
+    ELSE IF c < 65536 THEN <<224 + c \div 4096, 128 + ((c \div 64) % 64), 128 + (c % 64)>>
+    ELSE <<240 + c \div 262144, 128 + ((c \div 4096) % 64), 128 + ((c \div 64) % 64), 128 + (c % 64)>>
 RECURSIVE Utf8(_)
 Utf8(cps) == IF cps = <<>> THEN <<>> ELSE Utf8One(Head(cps)) \o Utf8(Tail(cps))
 Cont(b, i) == i <= Len(b) /\ b[i] >= 128 /\ b[i] <= 191
@@ -138,7 +138,7 @@ EncBits(v) ==
                                         + at(8 * j - 3) * 8 + at(8 * j - 2) * 4 + at(8 * j - 1) * 2 + at(8 * j)]
 DecBits(d) ==
     IF d = <<>> \/ ~All(d, Octet) \/ d[1] > 7 \/ (Len(d) = 1 /\ d[1] # 0) THEN Bad
-    ELSE [i \in 1..(8 * (Len(d) - 1) - d[1]) |-> (d[2 + (i - 1) \div 8] \div Pow2(7 - (i - 1) % 8)) % 2]
+    ELSE [i \in 1..(8 * (Len(d) - 1) - d[1]) |-> (d[2 + (i - 1) \div 8] \div Pow2(7 - ((i - 1) % 8))) % 2]
 
 \* ---- object identifiers (20.2.14): 10-bit type, 22-bit instance ---------------------------------------------
 EncOid(v) == <<v[1] \div 4, (v[1] % 4) * 64 + v[2] \div 65536, (v[2] \div 256) % 256, v[2] % 256>>
